@@ -362,6 +362,7 @@ STORE_WRITE_ASPECTS = {
     "C03": {"R03.5"},                                       # the new deadline is installed
     "C04": {"R02.4", "R02.5", "R03.5", "R04.4", "R05.2", "R09.2", "R18.3", "R08.2"},  # exact map: everything
     "C05": {"R03.5", "R05.2"},                              # stored deadline and expiry index move together
+    "C06": {"R04.4"},                                       # what the policy admitted is stored
     "C08": {"R02.4", "R08.2", "R09.2"},                     # old value comes back out, refused value handed back
     "C09": {"R09.2", "R02.5", "R03.5"},                     # guards, outcomes; TTL untouched on veto
     "C18": {"R18.3", "R09.2", "R02.5"},                     # same key, conflict test before every write
@@ -456,16 +457,26 @@ def _store_writes_all(rep, fl):
         okf = a[1] == key == V("key") and f.get("key") == V("key") and f.get("conflict") == V("conflict") and f.get("expiration") == V("expiration") \
             and is_call(f.get("value", ()), "SharedValue::new") and f["value"][2][0] == val
         rep.check(okf, "R03.5", fl, b, "StoreItem{..}", "the entry is stored under `key` with the given conflict, value and deadline", "StoreItem built as %s" % {k: show(v) for k, v in f.items()}, loc=t["sp"])
-    # R04.4: an absent key is always inserted: from the None edge every path to a return passes the insert (unless em fails)
-    for bi in b.live_blocks():
-        t = b.term(bi)
-        if t and t["k"] == "switch":
-            for tgt, atom, pol in edge_literals(b, bi):
-                if atom is not None and atom[0] == "variant" and atom[2] == "None" and norm(b.expand(atom[1])) == le:
-                    errs = [x for x, tt in b.calls() if callee_matches(b.callee_of(tt), "FromResidual::from_residual")]
-                    ok = ins and must_pass_through(b, [ins[0][0]] + errs, from_bi=tgt)
-                    rep.check(bool(ok), "R04.4", fl, b, "absent => inserted", "an absent key is always inserted (only an expiry-index error can prevent it)",
-                              "on the absent-key edge a return is reachable without inserting")
+    # R04.4: an absent key is always inserted: a return that has not passed the shard insert is justified only by
+    # a resident entry that refused the write (conflict mismatch / validator veto) or by an expiry-index error
+    import props_cache
+    ins_terms = [t for _, t, _ in ins]
+
+    def lab_ins(bi, t):
+        return "insert" if any(t is x for x in ins_terms) else None
+    outs, at_ins = props_cache.count_paths(b, lab_ins)
+    bad = []
+    for s_, cnt in outs:
+        if cnt.get("insert"):
+            continue
+        es = expand_state(b, s_, hist=True)
+        resident = any(a[0] == "variant" and a[2] == "Some" and v and norm(a[1]) == le for a, v in es.lits) or \
+            any(a[0] == "variant" and a[2] == "None" and v is False and norm(a[1]) == le for a, v in es.lits)
+        errp = any(a[0] == "variant" and a[2] == "Break" and v for a, v in es.lits)
+        if not (resident or errp):
+            bad.append(show_state(s_))
+    rep.check(bool(ins) and not bad, "R04.4", fl, b, "absent => inserted", "an absent key is always inserted (only a resident entry that refuses the write, or an expiry-index error, can prevent it)",
+              "store.try_insert can return without inserting although the key is not resident (path: %s): the policy has already charged the entry, which is then charged but not stored" % (bad[0][:200] if bad else ""))
     for bi, t in calls_to(b, EM + "::try_insert"):
         ok, cx = all_states(b, at, (bi, term_idx(b, bi)), absent)
         a = [norm(x) for x in b.call_args(t)]
@@ -875,7 +886,17 @@ def check_tick(rep, fl):
     elif oneshot:
         x, (bi, t) = oneshot[0]
         deadline = callee_matches(x.callee_of(t), "at") or x.callee_of(t).endswith("::at")
-        ok = is_period(x, x.call_args(t)[0], deadline) and x.in_loop(bi)
+        # a one-shot timer has to carry an absolute deadline that only a cleanup run moves: a relative
+        # `after(d)` armed anew on every turn of the loop is pushed back by every other event, and a busy
+        # cache never sweeps
+        ok = deadline and is_period(x, x.call_args(t)[0], deadline) and x.in_loop(bi)
+        if ok:
+            dv = norm(x.call_args(t)[0])
+            hc = calls_to(x, fl.processor + "::handle_cleanup_event")
+            if dv[0] == "var" and hc:
+                l = x.name_local.get(dv[1])
+                inloop = [d for d in x.defs.get(l, []) if x.in_loop(d[0])] if l is not None else []
+                ok = all(block_dominates(x, hc[0][0], d[0]) or d[0] == hc[0][0] for d in inloop)
     rep.check(ok, "R05.7", fl, sp, "ticker period", "the cleanup timer is built from self.cleanup_duration (periodic, or one-shot and re-armed in the loop)", "the cleanup timer's period is not the configured cleanup_duration")
     new = fl.code(fl.processor + "::new")
     f = None
